@@ -192,6 +192,14 @@ Definition expanded_name (v : option str * str) : str :=
   | None => snd v
   end.
 
+(* namespace names written with the plain ASCII URI characters of RFC 3986
+   (unreserved, ':/?@', sub-delims without ',', '%'); no fragment *)
+Definition uri_plain_char (c : N) : bool :=
+  ((48 <=? c) && (c <=? 57)) || ((65 <=? c) && (c <=? 90)) || ((97 <=? c) && (c <=? 122))
+  || mem c [45; 46; 95; 126; 58; 47; 63; 64; 33; 36; 38; 39; 40; 41; 42; 43; 59; 61; 37].
+Definition spec_uri_plain (u : str) : bool :=
+  negb (length u =? 0)%nat && forallb uri_plain_char u.
+
 (* ---- double: sign? (digit+ ('.' digit* )? | '.' digit+) ([eE] sign? digit+)? | sign? INF | NaN ---- *)
 Record exp_sp := mk_exp_sp { x_upper : bool; x_sign : sign_sp; x_digits : str }.
 Inductive double_sp :=
